@@ -53,7 +53,7 @@ def run(ck: Check) -> None:
             payload = gen.root_md(ks[:1], 1, [gen.key(7)], 1, version=rng.randint(1, 5))
             env = gen.envelope(payload)
             gen.sign_env(env, ks, rng.random() < 0.5, rng)
-        ops = [rng.choice(["write", "load", "sign-raw", "sign-gpg", "write", "load", "retype-write", "samesize-write", "load-mutate-load"]) for _ in range(rng.randint(3, 10))]
+        ops = [rng.choice(["write", "load", "sign-raw", "sign-gpg", "write", "load", "retype-write", "samesize-write", "load-mutate-load", "withdraw-signature-write"]) for _ in range(rng.randint(3, 10))]
         if i % 5 == 1:
             ops.insert(rng.randrange(len(ops) + 1), "sign-gpg")
         mem = copy.deepcopy(env)
@@ -97,6 +97,23 @@ def run(ck: Check) -> None:
                     ck.oracle_checks += 1
                     if b != gen.oracle_bytes(mem):
                         ck.violation("writing a changed value (1 -> 1.0, True -> 1, ...) left the file with the old contents / a non-canonical file", {"value": proto.enc(mem)[:800]}, "retype-write-stale")
+                        ok = False
+                    ck.evaluations += 1
+                    ck.count("fileop:" + op)
+                    continue
+                if op == "withdraw-signature-write":
+                    # a signature is withdrawn (or the whole map emptied) and the envelope written over the file that still has it: the file holds what was written
+                    mem = copy.deepcopy(mem)
+                    if mem["signatures"] and rng.random() < 0.7:
+                        del mem["signatures"][rng.choice(sorted(mem["signatures"]))]
+                    else:
+                        mem["signatures"] = {}
+                    impl.common.write_metadata_to_file(mem, fn)
+                    back = impl.common.load_metadata_from_file(fn)
+                    ck.oracle_checks += 1
+                    if open(fn, "rb").read() != gen.oracle_bytes(mem) or not proto.deep_equal(back, mem):
+                        ck.violation("writing an envelope with fewer signatures over a file that had more did not store the envelope given (withdrawn signatures came back)",
+                                     {"value": proto.enc(mem)[:800], "loaded": proto.enc(back)[:800]}, "withdrawn-signature-returns")
                         ok = False
                     ck.evaluations += 1
                     ck.count("fileop:" + op)
